@@ -62,6 +62,37 @@ PROPS = {
         note="no_type_check applied to a classmethod/staticmethod/property object and old-style / typechecker=None wrappers are DESIGN §6 zones (no claim). ASCII model of str.lower().",
         technique="Lean 4 proof (wrapper reduces to the bare call; case-insensitive parser characterisation) + exhaustive spellings and behavioural comparison",
     ),
+    "C08": dict(
+        text="Kernel-checked theorems about the model of PyTree.__instancecheck__ (flatten with the is-leaf test, per-leaf check through a model of the vendored typeguard, rollback): for every value and every context-free leaf type, PyTree[L] answers True exactly when the declarative TreeAccepts holds (the value matches L, or is a node - None and empty containers included - all of whose children are accepted); PyTree[PyTree[L]] gives the same verdict; bare PyTree and a top-level None are always accepted; with an array leaf type the verdict and the bindings are those of checking the discovered leaves one after the other in the current context (which C02 shows to be satisfiability); a rejected tree binds nothing. On the real code: all small trees over tuple/list/dict/None plus random trees with namedtuples and registered nodes x 10 leaf types x 3 prior contexts, verdict and bindings against the model, PyTree[PyTree[L]] against PyTree[L], and the structure of every generated tree against jax.tree_util.",
+        note="Modelled, validated on every generated tree: jax.tree_util (flatten order, None handling, dict key sorting). Trusted: the vendored typeguard for the leaf types in scope (int, str, tuple[...], Union, Any, classes, arrays, structure-less PyTrees).",
+        technique="Lean 4 proof (mutual structural induction over values and leaf types) + differential run on generated trees",
+    ),
+    "C09": dict(
+        text="Kernel-checked theorems: a single identifier binds the structure on first use and afterwards accepts exactly equal structures; a composite 'N1 ... Nk' stands for the right-nested substitution (n-ary, by associativity of substitution); 'T ...' accepts exactly the trees arising from T by grafting arbitrary subtrees on its leaves; '... T' accepts exactly the trees of the form U[every leaf := T]; a composite mentioning an unbound name raises AnnotationError; the build-time validation rejects exactly the empty string, non-identifier pieces and an interior '...'. On the real code: every triple of a 15-tree pool x the four forms, whitespace / piece variants of structure strings for validation, random deeper trees; verdicts, bindings and exception class against the model.",
+        note="Strings '...', '... ...', '... T ...' and non-string structures are DESIGN §6 zones (model mirrors the code, no claim). jax.tree_util's treedef equality and tree_map prefix rule are modelled (Def equality / isPrefix) and compared on every generated tree.",
+        technique="Lean 4 proof (structural induction on tree definitions; substitution / graft characterisations) + exhaustive small-scope differential run",
+    ),
+    "C10": dict(
+        text="Kernel-checked theorems about the model of JaxtypingTransformer on located rose trees: for every program, erasing the one import after the prologue, the last decorator of every def and the first of every class gives back the original tree (all locations, docstring and __future__ imports included); exactly one decorator per synchronous def and class at any depth, none on async def or lambda (nested synchronous defs still reached); exactly one import iff a non-prologue statement exists, placed after the maximal prologue; the visitor facts (append / insert(0) / copy_location / visitor set) are re-extracted from the current source and decided. Translation validation per program on the real transformer: for sampled standard-library and site-packages files and generated modules, the real output is compared with the Lean transform node by node, erase-equality of ast.dump(include_attributes=True), compile(), __future__ flags and docstring; generated modules are executed plain vs hooked on well-typed calls.",
+        note="Partial: 'the result always compiles' and 'behaves like the plain module' involve CPython's compiler and decorator semantics and are established per program only (translation validation), under the hypothesis that the module does not rebind `jaxtyping`.",
+        technique="Lean 4 proof (erase-after-transform identity by structural induction) + per-program translation validation against the real transformer",
+        level="proof",
+    ),
+    "C11": dict(
+        text="Kernel-checked theorems: the in-scope predicate is dotted-component prefix (so `foobar` is not beneath `foo`) for all well-formed names; for every history of install / uninstall / import operations a module's status is decided at its first import by the front-most installed hook in scope and never changes afterwards; an uninstalled hook claims nothing; with no hook everything loads unmodified; the checker key is injective with None as '0'; the predicate / insertion / removal facts are re-extracted from the current source and decided. On the real code: generated package forests (siblings with common string prefixes, nested sub-packages, cross-imports) under random operation histories with a spy typechecker, compared with the model.",
+        note="Partial: importlib itself (finder protocol, sys.modules, parents-first import) is modelled, not verified; md5 is modelled as injective.",
+        technique="Lean 4 proof (invariant over import histories; component-prefix characterisation) + differential run on generated package forests",
+    ),
+    "C16": dict(
+        text="Kernel-checked theorems: the memo key of a '?name' axis at leaf i of structure string T is distinct from the plain axis and from every other (i, T, name) - also after rendering to the string the memo shows; an array check at '?'-position tp reads and writes only plain keys and keys of that position (frame theorem for _check_shape: other leaf positions and other structure strings never influence it nor change), so with the C02 satisfiability theorem over keys: same position must agree, different positions are independent; '?' outside a structured PyTree or beneath two raises AnnotationError; leaf types built from arrays, classes, tuples, unions and structure-less PyTrees hand the two flags through unchanged given the re-entrant protocol extracted from the source, and each protocol fact is shown to matter. On the real code: pairs of trees with per-leaf sizes equal / different at the same and at different positions, 10 leaf-type shapes, contexts and decorated calls (new and old style), a second structure name, the error cases; verdicts and bindings against the model.",
+        note="jax.tree_util flatten order gives the leaf index; modelled and compared. The structure string is assumed free of ')' for the rendered-key theorem (it is a sequence of identifiers and '...').",
+        technique="Lean 4 proof (frame property of the shape walk, injectivity of rendered keys, flag transparency by induction on leaf types) + differential run on generated tree pairs",
+    ),
+    "C18": dict(
+        text="Kernel-checked theorems about the model of the loader's bytecode cache: with the cache-name patch confined to get_code (fact re-extracted from the current source and decided, as is the presence of the typechecker hash in the tag), the invariant 'every entry is what its tag says' holds for every reachable cache and every load of every run of every history (any hooked subsets, typecheckers, nested import orders, source edits) executes the code the current source and configuration call for; tags of different configurations never collide; with the patch spanning exec_module a two-run history provably executes stale code (the repaired defect F1). On the real code: histories of 2-4 fresh interpreter runs over one cache directory with bytecode writing enabled, modules with nested imports, hooked subsets / typecheckers / source edits varied; per module: instrumented?, by which checker, current source?",
+        note="Partial: the file system, mtime/size validation of pyc files and importlib's SourceLoader are modelled (version number = what the validation compares), not verified.",
+        technique="Lean 4 proof (cache invariant by induction over histories of runs; extracted patch-scope fact) + multi-run subprocess histories",
+    ),
 }
 
 
